@@ -260,6 +260,17 @@ def _(c):
     got_follow = np.asarray(holder.cov, dtype=float)
     sc = np.sqrt(np.abs(np.outer(np.diag(want_follow), np.diag(want_follow)))) + 1e-30
     c.ensure("follows_the_state", bool(str(holder.cov.frame) == moved_to and np.all(np.abs(got_follow - want_follow) <= 1e-7 * sc)))
+    # ... and when the state is moved a SECOND time (a third, back): the covariance that has followed once follows again
+    chain = holder.copy()
+    hops = [h for h in (["MOD", "ITRF", "TOD", "GCRF", "PEF"][c.integer("target")], start) if h != str(chain.frame)]
+    ok_again = True
+    for hop in hops:
+        chain.frame = hop
+        want_h = _direct(sv0, C, start, hop)
+        got_h = np.asarray(chain.cov, dtype=float)
+        sc_h = np.sqrt(np.abs(np.outer(np.diag(want_h), np.diag(want_h)))) + 1e-30
+        ok_again = ok_again and bool(str(chain.cov.frame) == hop and np.all(np.abs(got_h - want_h) <= 1e-7 * sc_h))
+    c.ensure("follows_the_state_again", ok_again)
     target = ["QSW", "TNW", start, "ITRF", "MOD"][c.integer("target")]
     holder.cov.frame = target
     want = _direct(sv0, C, start, target)
